@@ -4,6 +4,8 @@
 from __future__ import annotations
 
 import asyncio
+import json
+import os
 import time as _time
 from dataclasses import dataclass, field
 
@@ -92,6 +94,19 @@ class Hist:
 # the same afterwards, which is how the comparison treats it (no driver line, expected observation "ok", no writes).
 SESSION = ("session", "", (), None)
 
+# The same with a persistence file configured (`Config(persistence_file=...)`): a history that contains this operation
+# is run on a gateway WITH a file, inside the context from the start (the first enter finds no file and writes the
+# registry the history starts with); the operation leaves the context - with the exception of the step before it, when
+# that step raised: the error left `async with gateway:` - which saves the registry a final time, and enters the SAME
+# object again, which loads the file: every Node object is replaced by a fresh one built from the file.  What the file
+# carries of a node is everything but its reboot flag; the histories that use the operation never set that flag, so the
+# model's state is the same afterwards here too (whatever the gateway holds for a node is not the registry's to lose).
+SESSION_FILE = ("session", "file", (), None)
+
+
+def has_file(h) -> bool:
+    return any(op[0] == "session" and op[1] == "file" for op in h.ops)
+
 
 # The caller's own `Message` objects.  A plain `("send", fields, buffer, faults)` builds a Message for that one call and
 # drops it.  `("send", fields, buffer, faults, handle)` is a send of the caller's object `handle` (a small number): the
@@ -118,9 +133,54 @@ def caller_object(objs: dict, handle, fields):
     return obj
 
 
+def held_items(gateway):
+    """What the gateway holds for sleeping nodes, READ FROM ITS INTERNALS: [((node, child, type), message)], grouped by
+    destination node (ascending), in the order of the store within a node - the only order anything depends on (a wake
+    releases its node's entries in that order); in which order entries of DIFFERENT nodes were stored has no meaning, so
+    a store kept per node reads the same as one gateway-wide dict.  None when no such store is found where it used to
+    be (the `set_messages` mapping of the gateway's one `MessageBuffer`, found by type: `lib.sleep_buffer`): where a refactoring keeps it is
+    its own business, and what is held is then observed only by what later wakes write (the drain of every history
+    that is compared on the writes view, and the trace-based oracles)."""
+    try:
+        items = list(lib.sleep_buffer(gateway).set_messages.items())
+        if not all(isinstance(k, tuple) and len(k) == 3 and all(isinstance(x, int) for x in k) and hasattr(m, "payload")
+                   for k, m in items):
+            return None
+    except Exception:  # noqa: BLE001
+        return None
+    return sorted(items, key=lambda kv: kv[0][0])
+
+
+def canon_state(state: str) -> str:
+    """A rendered state (the model's, or ours) with the sleep buffer's entries grouped by node as `held_items` does."""
+    head, sep, sb = state.rpartition(" sbuf=[")
+    if not sep or not sb.endswith("]") or sb == "?]":
+        return state
+    toks = sb[:-1].split(" ") if sb[:-1] else []
+    try:
+        toks = sorted(toks, key=lambda t: int(t.split(".", 1)[0]))
+    except ValueError:
+        return state
+    return f"{head}{sep}{' '.join(toks)}]"
+
+
+def align_state(impl_state: str, model_state: str) -> str:
+    """The model's state as far as the implementation's could be observed: where the store of held commands was not
+    found (`sbuf=[?]`), the model's is not compared either."""
+    if impl_state.endswith(" sbuf=[?]"):
+        return model_state.rpartition(" sbuf=[")[0] + " sbuf=[?]"
+    return model_state
+
+
+def observed_sbuf(gateway):
+    """(found?, [(key, payload)]) of the internal store of held commands."""
+    items = held_items(gateway)
+    return items is not None, [(k, m.payload) for k, m in items or []]
+
+
 def entry_is_message(gateway, obj, fields) -> bool:
     """Is the sleep buffer's entry under the key of `fields` the message `obj` (or a copy that reads the same)?"""
-    e = gateway._message_buffer.set_messages.get((fields[0], fields[1], fields[4]))
+    e = dict(held_items(gateway) or []).get((fields[0], fields[1], fields[4]))
     return e is not None and (e is obj or tuple(getattr(e, a, None) for a in MSG_ATTRS) == tuple(fields))
 
 
@@ -148,7 +208,8 @@ def render_state(gw: Gateway) -> str:
     buf = lib.sleep_buffer(gw)
     pv = "pv=none" if gw.protocol_version is None else "pv=" + enc(gw.protocol_version)
     ib = " ".join(f"{k[0]}.{k[1]}.{k[2]}" for k in buf.internal_messages)
-    sb = " ".join(f"{k[0]}.{k[1]}.{k[2]}={enc(m.payload)}" for k, m in buf.set_messages.items())
+    held = held_items(gw)
+    sb = "?" if held is None else " ".join(f"{k[0]}.{k[1]}.{k[2]}={enc(m.payload)}" for k, m in held)
     return f"{pv} proto={gw.protocol.VERSION} nodes=[{'|'.join(nodes)}] ibuf=[{ib}] sbuf=[{sb}]"
 
 
@@ -181,9 +242,9 @@ def render_msg(m: Message) -> str:
 # ---- running a history on the implementation --------------------------------------------------
 
 
-def build_gateway(h: Hist, transport: Transport | None = None):
+def build_gateway(h: Hist, transport: Transport | None = None, persistence_file: str | None = None):
     tr = FaultTransport() if transport is None else transport
-    gw = Gateway(tr, Config(metric=h.metric))
+    gw = Gateway(tr, Config(metric=h.metric, persistence_file=persistence_file))
     if h.version is not None:
         gw.protocol_version = h.version
     for p in h.preload:
@@ -209,20 +270,98 @@ def snapshot_nodes(gw: Gateway):
             for k, n in gw.nodes.items()}
 
 
+_file_counter = 0
+
+
+def _new_file() -> str:
+    global _file_counter
+    _file_counter += 1
+    return os.path.join(lib.scratch(), f"gw-history-{os.getpid()}-{_file_counter}.json")
+
+
+async def settle(gateway, path: str) -> None:
+    """After entering the context of a gateway with a persistence file: let the scheduled save, which the enter started,
+    write the file and go to sleep, so that no later step of the history meets it half-way (every history is then
+    reproducible; leaving the context while that save is in flight is C13's known finding F17, not what these
+    histories are about).  The library's file operations are real but run in the loop's own thread here
+    (`_inline_files`), so each is complete one turn of the loop after it was asked for; a save is a chain of them."""
+    for i in range(400):
+        await asyncio.sleep(0)
+        if i >= 7 and i % 4 == 3:
+            try:
+                with open(path, encoding="utf-8") as f:
+                    if set(json.load(f)) == {str(k) for k in gateway.nodes}:
+                        return
+            except (OSError, ValueError):
+                pass
+
+
 async def _run_impl(h: Hist):
     """One history on the real gateway.  Received lines are consumed the way an application does it: through ONE
     `gateway.listen()` generator for as long as it keeps yielding (`async for message in gateway.listen()`); after a
     step that raised, the generator is finished and the application starts a new one.  Histories whose hash is odd
-    instead fetch every line from a fresh generator (the style of the repo's tests)."""
-    gw, tr = build_gateway(h)
+    instead fetch every line from a fresh generator (the style of the repo's tests).
+    A history with `SESSION_FILE` operations runs on a gateway with a persistence file, inside its context."""
+    path = _new_file() if has_file(h) else None
+    gw, tr = build_gateway(h, persistence_file=path)
+    entered = None
+    if path is not None:
+        _inline_files(asyncio.get_running_loop())
+        try:
+            await gw.__aenter__()
+            await settle(gw, path)
+            entered = "ok"
+        except BaseException as e:  # noqa: BLE001  (evidence about the code under test, not a crash of the harness)
+            entered = render_exc(e)
+    try:
+        obs = await _run_ops(h, gw, tr, path)
+        obs[0]["entered"] = entered
+        return obs
+    finally:
+        if path is not None:
+            try:
+                await gw.__aexit__(None, None, None)
+            except BaseException:  # noqa: BLE001
+                pass
+            try:
+                os.unlink(path)
+            except OSError:
+                pass
+
+
+def _inline_files(loop) -> None:
+    """Make the running loop's default executor (where aiofiles sends the library's file operations) one that runs
+    each operation at once, in the caller's thread: the operations on the file are the real ones (open, read, write,
+    close on a real path), only no second thread is involved - a history with a persistence file is then as
+    deterministic, and nearly as cheap, as one without.  `asyncio.run` shuts the executor down with the loop."""
+    if getattr(loop, "_gw_history_pool", None) is None:
+        from concurrent.futures import Future, ThreadPoolExecutor
+
+        class Inline(ThreadPoolExecutor):
+            def submit(self, fn, /, *args, **kwargs):
+                f: Future = Future()
+                try:
+                    f.set_result(fn(*args, **kwargs))
+                except BaseException as e:  # noqa: BLE001
+                    f.set_exception(e)
+                return f
+
+        loop._gw_history_pool = Inline(max_workers=1)
+        loop.set_default_executor(loop._gw_history_pool)
+
+
+async def _run_ops(h: Hist, gw, tr, path):
     persistent = (len(h.ops) + len(h.preload) + (0 if h.version is None else len(h.version))) % 3 != 0
     listener = None
     objs: dict = {}              # the caller's Message objects by handle
+    raised = None                # the exception the step before ended in
+    seen, sbuf = observed_sbuf(gw)
     obs = [{"out": "init", "writes": [], "state": render_state(gw), "nodes": snapshot_nodes(gw),
             "pv": gw.protocol_version, "proto": gw.protocol.VERSION,
-            "sbuf": [(k, m.payload) for k, m in lib.sleep_buffer(gw).set_messages.items()],
+            "sbuf": sbuf, "sbuf_seen": seen,
             "ibuf": list(lib.sleep_buffer(gw).internal_messages)}]
     for op in h.ops:
+        raised, last = None, raised
         tr.attempts = []
         held = None
         if op[0] == "recv":
@@ -239,14 +378,21 @@ async def _run_impl(h: Hist):
                 out = render_msg(m)
             except BaseException as e:  # noqa: BLE001
                 out = render_exc(e)
+                raised = e
                 listener = None          # an async generator that raised is finished
         elif op[0] == "session":
             if listener is not None:
                 await listener.aclose()
                 listener = None
             try:
-                await gw.__aexit__(None, None, None)
+                # (when the step before raised, that error is what leaves `async with gateway:`)
+                if last is not None:
+                    await gw.__aexit__(type(last), last, last.__traceback__)
+                else:
+                    await gw.__aexit__(None, None, None)
                 await gw.__aenter__()
+                if path is not None:
+                    await settle(gw, path)
                 out = "ok"
             except BaseException as e:  # noqa: BLE001
                 out = render_exc(e)
@@ -266,12 +412,14 @@ async def _run_impl(h: Hist):
                 out = "ok"
             except BaseException as e:  # noqa: BLE001
                 out = render_exc(e)
+                raised = e
             # after the call: is the message that was sent the buffer's entry for its key, and did this call make it so?
             held = fields is not None and entry_is_message(gw, obj, fields)
             held = (held, held and not held_before)
+        seen, sbuf = observed_sbuf(gw)
         obs.append({"out": out, "held": held, "writes": list(tr.attempts), "state": render_state(gw), "nodes": snapshot_nodes(gw),
                     "pv": gw.protocol_version, "proto": gw.protocol.VERSION,
-                    "sbuf": [(k, m.payload) for k, m in lib.sleep_buffer(gw).set_messages.items()],
+                    "sbuf": sbuf, "sbuf_seen": seen,
                     "ibuf": list(lib.sleep_buffer(gw).internal_messages)})
     if listener is not None:
         await listener.aclose()
@@ -336,14 +484,14 @@ def model_obs(h: Hist, outs: list[str]):
     for o in outs[:k]:
         if o != "ok":
             raise lib.ModelError(f"model rejected a setup operation: {o}")
-    res = [("init W", outs[k])]
+    res = [("init W", canon_state(outs[k]))]
     i = k + 1
     for op in h.ops:
         if op[0] == "session":
-            res.append(("ok W", outs[i]))
+            res.append(("ok W", canon_state(outs[i])))
             i += 1
             continue
-        res.append((outs[i], outs[i + 1]))
+        res.append((outs[i], canon_state(outs[i + 1])))
         i += 2
     return res
 
@@ -367,6 +515,7 @@ def compare(h: Hist, impl, model, view: str = "full"):
             continue
         if iout != mo:
             return {"step": i, "impl": iout, "model": mo}
+        ms = align_state(io["state"], ms)
         if io["state"] != ms:
             return {"step": i, "impl_state": io["state"], "model_state": ms}
     return None
